@@ -45,7 +45,10 @@ Definition expected_name_rules : name_rules := {|
      "NoParsing"];
   set_shape := ["p.Settings = settings"];
   settings_writers := ["Parser.Set"];
-  parse_collect_shape := ["listener := NewTreeShapeListener()";
+  parse_collect_shape := ["if p.AssignTypes == nil || len(p.AssignTypes) > 0 { p.AssignTypes = map[string]TypeData{} }";
+     "if p.LetTypes == nil || len(p.LetTypes) > 0 { p.LetTypes = map[string]TypeData{} }";
+     "if p.Messages == nil || len(p.Messages) > 0 { p.Messages = map[string][]msg.Msg{} }";
+     "listener := NewTreeShapeListener()";
      "listener.lint()";
      "if filepath.Ext(resource) == """" { resource += syslExt }";
      "retrieved := retrievedList{make(map[retrievedListIndex]*fileInfo), sync.Mutex{}}";
